@@ -129,7 +129,12 @@ def expr_grammar(rng):
     if rng.random() < 0.5:
         rules.append({"lhs": "E", "rhs": ["'('", "E", "')'"], "prec": None})
     toks = ["T0"] + (["UMINUS"] if unary else [])
-    return {"tokens": toks, "lits": [], "prec": prec, "nts": ["E"], "start": "E", "rules": rules}
+    lits = []
+    for r in rules:
+        for x in r["rhs"]:
+            if x.startswith("'") and x not in lits:
+                lits.append(x)
+    return {"tokens": toks, "lits": lits, "prec": prec, "nts": ["E"], "start": "E", "rules": rules}
 
 
 CORPUS = {
@@ -187,3 +192,100 @@ def enum_tiny(max_rules=3, max_len=2):
 def spec_key(spec):
     return (tuple(spec["tokens"]), tuple(spec["lits"]), tuple((k, tuple(s)) for k, s in spec["prec"]),
             tuple((r["lhs"], tuple(r["rhs"]), r.get("prec")) for r in spec["rules"]))
+
+
+class SpecG:
+    """name-level view of a spec for sentence sampling (used to build letter inputs for X)"""
+
+    def __init__(self, spec):
+        self.spec = spec
+        self.terms = spec["tokens"] + spec["lits"]
+        self.tidx = {t: i for i, t in enumerate(self.terms)}
+        self.by = {}
+        for i, r in enumerate(spec["rules"]):
+            self.by.setdefault(r["lhs"], []).append(i)
+        INF = 10 ** 9
+        self.ml = {}
+        self.best = {}
+        for t in self.terms:
+            self.ml[t] = 1
+        for n in spec["nts"]:
+            self.ml[n] = INF
+        ch = True
+        while ch:
+            ch = False
+            for i, r in enumerate(spec["rules"]):
+                s = sum(self.ml.get(x, INF) for x in r["rhs"])
+                if s < self.ml.get(r["lhs"], INF):
+                    self.ml[r["lhs"]] = s
+                    self.best[r["lhs"]] = i
+                    ch = True
+
+    def sample(self, rng, max_len=12, budget=40):
+        start = self.spec["start"]
+        if self.ml.get(start, 10 ** 9) > max_len:
+            return None
+        out = []
+        stack = [start]
+        steps = 0
+        while stack:
+            x = stack.pop()
+            if x in self.tidx:
+                out.append(x)
+                if len(out) > max_len:
+                    return None
+                continue
+            alts = self.by.get(x)
+            if not alts:
+                return None
+            steps += 1
+            if steps > budget * 20:
+                return None
+            if steps > budget:
+                r = self.best.get(x, alts[0])
+            else:
+                ok = [a for a in alts if all(self.ml.get(y, 10 ** 9) < 10 ** 9 for y in self.spec["rules"][a]["rhs"])]
+                r = rng.choice(ok or alts)
+            for y in reversed(self.spec["rules"][r]["rhs"]):
+                stack.append(y)
+        return "".join(chr(97 + self.tidx[t]) for t in out)
+
+
+def x_inputs(spec, rng, max_len=3, n_sent=10, cap=250):
+    """letter strings: all strings up to a bound over the terminals plus an unknown letter, sampled
+    sentences and mutated sentences"""
+    n = len(spec["tokens"]) + len(spec["lits"])
+    letters = [chr(97 + i) for i in range(n)] + ["z"]
+    out = []
+    k = max_len
+    while k > 0 and sum(len(letters) ** j for j in range(k + 1)) > cap:
+        k -= 1
+    for j in range(k + 1):
+        for t in itertools.product(letters, repeat=j):
+            out.append("".join(t))
+    sg = SpecG(spec)
+    seen = set(out)
+    for _ in range(n_sent):
+        s = sg.sample(rng)
+        if s is None:
+            continue
+        for cand in (s, _mutate(s, letters, rng)):
+            if cand not in seen:
+                seen.add(cand)
+                out.append(cand)
+    return out
+
+
+def _mutate(s, letters, rng):
+    if not s:
+        return rng.choice(letters)
+    m = list(s)
+    i = rng.randrange(len(m))
+    op = rng.randrange(3)
+    if op == 0:
+        del m[i]
+    elif op == 1:
+        m.insert(i, rng.choice(letters))
+    else:
+        m[i] = rng.choice(letters)
+    return "".join(m)
